@@ -34,7 +34,9 @@ import (
 //     (without the key, as any holder can) that lack a required caveat, or carry an additional or
 //     unknown one, must be refused for every user;
 //   - expiry: tokens minted here with "time < now+delta" must be refused for delta <= -2 s and
-//     accepted for delta >= +2 s (margins, no clock hook); one real-time sub-check sleeps.
+//     accepted for delta >= +2 s (margins, no clock hook); one real-time sub-check sleeps;
+//   - exact expiry boundary: ValidateToken polled with the wall clock read before and after each
+//     call (C20/boundary, see below) — no tolerance, verdicts only from non-straddling brackets.
 //
 // The strings below are transcribed from the property / DESIGN text, not taken from the package's
 // constants, so that a change of the constants is seen.
@@ -1196,10 +1198,130 @@ func c20RTCheck(ctx *vfCtx, c c20RTCase) {
 	}
 }
 
+// ---------------------------------------------------------------------------------------------
+// Exact expiry boundary, without tolerance: the library's clock read is BRACKETED. A token issued
+// for d seconds carries "time < T". ValidateToken is polled; around each call the wall clock is
+// read (before, after). The library's own time.Now() lies between the two readings, so
+//   before >= T and accepted  => the token validated at or after its expiry instant   (violation)
+//   after  <  T and refused   => a pristine token was refused before its expiry        (violation)
+// and a call whose bracket straddles a second boundary gives no verdict. Load on the machine only
+// widens brackets (fewer judged calls), it never produces a verdict.
+
+const c20BoundaryRule = "at least one ValidateToken call on the issued token had its clock bracket wholly inside the expiry second T (and one wholly before T)"
+
+type c20BDCase struct {
+	Duration int `json:"duration"`
+}
+
+func c20BDEnum(size, shard, nshards int, emit func(c20BDCase)) {
+	all := []c20BDCase{{1}, {2}, {3}, {1}}
+	for i, c := range all {
+		if i >= size {
+			break
+		}
+		if nshards > 1 && i%nshards != shard {
+			continue
+		}
+		emit(c)
+	}
+}
+
+func c20BDCheck(ctx *vfCtx, c c20BDCase) {
+	key, server, user := []byte("c20-boundary-secret"), "example.org", "@bd:example.org"
+	ctx.Class("boundary:dur:" + strconv.Itoa(c.Duration))
+	if c.Duration < 1 || c.Duration > 5 {
+		ctx.Unjudged("boundary polling is meant for durations 1..5")
+		return
+	}
+	is := c20Issue(ctx, key, server, user, c.Duration, true)
+	if is == nil || !is.tOK {
+		return
+	}
+	if is.unit == "unknown" {
+		ctx.Unjudged("expiry caveat is not a Unix time: no boundary to bracket")
+		return
+	}
+	clock := func(t time.Time) int64 {
+		if is.scale == 1000 {
+			return t.UnixMilli()
+		}
+		return t.Unix()
+	}
+	T := is.t
+	op := TokenOptions{ServerPrivateKey: key, ServerName: server, UserID: user}
+	deadline := is.t0.Add(time.Duration(c.Duration)*time.Second + 1500*time.Millisecond)
+	var calls, straddle, preOK, atOK, postOK int64
+	var failAt, failPre bool
+	vfCatch(ctx, "C20", func() {
+		for {
+			before := time.Now()
+			err := ValidateToken(op, is.tok)
+			after := time.Now()
+			calls++
+			b, a := clock(before), clock(after)
+			switch {
+			case a < b:
+				straddle++ // wall clock stepped backwards: no verdict
+			case b >= T:
+				// the library read its clock at or after T
+				if err == nil {
+					if !failAt {
+						failAt = true
+						ctx.Fail("C20/expired-accepted/at-expiry-second", "token issued for %d s with caveat %q%d validates in a call bracketed by clock readings %d (%s) and %d: its expiry instant had been reached",
+							c.Duration, c20TimePrefix, T, b, before.Format("15:04:05.000000"), a)
+					}
+				} else if b == T && a == T {
+					atOK++
+				} else {
+					postOK++
+				}
+			case a < T:
+				// the library read its clock before T
+				if err != nil {
+					if !failPre {
+						failPre = true
+						ctx.Fail("C20/refused-before-expiry", "pristine token issued for %d s with caveat %q%d is refused (%v) in a call bracketed by clock readings %d and %d (%s): its expiry had not been reached",
+							c.Duration, c20TimePrefix, T, err, b, a, after.Format("15:04:05.000000"))
+					}
+				} else {
+					preOK++
+				}
+			default:
+				straddle++ // before < T <= after: the library may have read either side
+			}
+			if after.After(deadline) || (is.scale == 1 && b > T && postOK > 100) {
+				break
+			}
+			// poll densely near second boundaries, lightly elsewhere
+			if ns := after.Nanosecond(); is.scale == 1 && ns > 30e6 && ns < 970e6 {
+				time.Sleep(500 * time.Microsecond)
+			}
+		}
+	})
+	vfNote("C20/boundary:calls", calls)
+	vfNote("C20/boundary:straddling-brackets", straddle)
+	vfNote("C20/boundary:judged-before-expiry", preOK)
+	vfNote("C20/boundary:judged-in-expiry-second", atOK)
+	vfNote("C20/boundary:judged-after-expiry-second", postOK)
+	if atOK > 0 || failAt {
+		ctx.Class("boundary:expiry-second-observed")
+	} else {
+		ctx.Class("boundary:expiry-second-not-observed")
+		ctx.Unjudged("no call with its bracket wholly inside the expiry second (machine too loaded)")
+	}
+	if preOK > 0 || failPre {
+		ctx.Class("boundary:before-expiry-observed")
+	}
+	if (atOK > 0 || failAt) && (preOK > 0 || failPre) {
+		ctx.NonTrivial()
+	}
+}
+
 func init() {
 	vfRapid("C20/issue", c20Rule, 500, 10000, 2, c20GenCase(c20OpsIssue), c20Check)
 	vfRapid("C20/alter", c20Rule, 700, 20000, 4, c20GenCase(c20OpsAlter), c20Check)
 	vfRapid("C20/caveats", c20Rule, 500, 12000, 2, c20GenCase(c20OpsCaveats), c20Check)
 	vfRapid("C20/expiry", c20Rule, 300, 8000, 2, c20GenCase(c20OpsExpiry), c20Check)
 	vfEnum("C20/realtime", c20Rule, 2, 4, 1, c20RTEnum, c20RTCheck)
+	vfEnum("C20/boundary", c20BoundaryRule, 2, 4, 1, c20BDEnum, c20BDCheck)
 }
